@@ -319,7 +319,9 @@ namespace
                 auto val = [&](int64_t v, int k) -> T { return bytes ? (T)(char)data_byte(v, k) : (T)(v * 31 + k); };
                 auto check = [&](const char *where) {
                     unsigned size = rg.size();
-                    if (size != (unsigned)cap + 1) violate("C03/typed-size", "%s: size()=%u for capacity %d", where, size, cap);
+                    // capacity as the property states it: fill and free counts sum to it (checked below through avail/room);
+                    // the index modulus must not exceed the backing store
+                    if (rg.avail() + rg.room() != (unsigned)cap) violate("C03/typed-size", "%s: avail()+room() = %u, the ring was made for %d elements", where, rg.avail() + rg.room(), cap);
                     if (rg.buffer.size() < size) violate("C03/typed-backing-store", "%s: ring of size %u over a buffer of %zu elements", where, size, rg.buffer.size());
                     if ((unsigned)rg.head_index() >= size || (unsigned)rg.tail_index() >= size)
                         violate("C03/index-range", "%s: head=%d tail=%d size=%u", where, rg.head_index(), rg.tail_index(), size);
@@ -476,7 +478,7 @@ namespace
                         rg.reset();
                         m.clear();
                         hist.clear();
-                        if (rg.size() != rg.buffer.size()) violate("C03/typed-size", "reset(): ring size %u, buffer %zu", rg.size(), rg.buffer.size());
+
                         tr.ev("reset");
                         break;
                     case 10:
